@@ -41,6 +41,18 @@ func newTraversal(variable string) traversal {
 	}
 }
 
+// fork returns a copy of the traversal that shares no backing array with it, so that the alternatives of an OR path
+// can append their own code without overwriting each other's
+func (t traversal) fork() traversal {
+	return traversal{
+		variable:      t.variable,
+		counter:       t.counter,
+		rego:          append([]string{}, t.rego...),
+		pathVariables: append([]string{}, t.pathVariables...),
+		paths:         append([]string{}, t.paths...),
+	}
+}
+
 func internalResultToTraversal(p traversal, r regoPathResultInternal) traversal {
 	return traversal{
 		variable:      p.variable,
@@ -168,7 +180,7 @@ func traverse(propPath path.PropertyPath, traversed traversal, fetchNodes bool, 
 func traverseOr(or path.OrPath, t traversal, fetchNodes bool, iriExpander *misc.IriExpander) []regoPathResultInternal {
 	acc := make([]regoPathResultInternal, 0)
 	for _, p := range or.Or {
-		traversed := traverse(p, t, fetchNodes, iriExpander)
+		traversed := traverse(p, t.fork(), fetchNodes, iriExpander)
 		for _, tr := range traversed {
 			acc = append(acc, tr)
 		}
